@@ -217,7 +217,8 @@ def run(run: common.Run):
                         run.fail(dict(case, halvings=[base[0], hv]),
                                  f'statistics depend on the block partition ({base[1]} vs {nblk} blocks): relative difference {d:.2e} '
                                  f'in band {k0}', signature=dict(kind='partition-stats', forced_finer=forced_finer,
-                                                                 local_resampler=case['upsampling'] == 'nearest' or not forced_finer))
+                                                                 local_resampler=case['upsampling'] == 'nearest' or not forced_finer,
+                                                                 tie_geometry=bool(case.get('_tie'))))
                         break
         run.sample(dict(case={k: case[k] for k in ('i', 'grid', 'nb', 'halvings', 'threads', 'upsampling', 'dup_descr')},
                         model=[{k: str(v) for k, v in m.items()} for m in (model_stats or [])][:1]), 4)
